@@ -28,6 +28,7 @@ DECIDED = [
     "R-C05-POLL (round 5): the Redis delayed scan ends only on an empty page (a due message behind a full page of foreign entries is still found); R-C05-ROUTE: category comparisons by equality",
     "R-C05-ROUND / R-C05-POLL / R-C05-ROUTE (round 6 + sweep): the RabbitMQ TTL is not capped; the in-memory refresh period is a constant; RabbitMQ: TTL exactly for a due time ahead, delayed queue exactly with a TTL, dead-letter route delayed -> work queue, a NORMAL consumer subscribes the work queue",
     "R-C05-AWAITED: in the files this property is anchored in, no bare statement calls a coroutine function (the operation would never run)",
+    "R-C05-ROUTE (Redis sweep rules): the Redis key constructors (delayed messages live in :d lists only)",
 ]
 NOT_DECIDED = ["the delivery latency bound after T (timing)", "RabbitMQ per-message TTL head-of-line blocking (server behaviour)"]
 ASSUMPTIONS = ["Redis ZRANGE BYSCORE -inf..now returns only members with score <= now", "RabbitMQ dead-letters expired messages of a queue to its DLX routing key"]
@@ -41,6 +42,9 @@ def run(ctx: Ctx) -> None:
     from .shared import every_operation_awaited
 
     every_operation_awaited(ctx, "R-C05-AWAITED")  # in the files this property is anchored in, no asynchronous operation is created and dropped
+    from .brokers import redis_name_constructors
+
+    redis_name_constructors(ctx, "R-C05-ROUTE")  # delayed messages live in :d lists only (a plain qnc() is the waiting list)
     from .brokers import rabbit_enqueue_contract, rabbit_lifecycle
 
     rabbit_enqueue_contract(ctx, "R-C05-ROUTE")  # RabbitMQ: a TTL exactly for a due time ahead, the delayed queue exactly with a TTL, the dead-letter route delayed -> work queue
